@@ -121,9 +121,8 @@ class OsShim:
     @staticmethod
     def urandom(n):
         e = cur_ex()
-        v = e.fresh_int("a_secret", 0, 256 ** n - 1) if "a_secret" not in e.inputs else None
-        if v is None:
-            raise Unsupported("second call of os.urandom")
+        k = e.scratch["urandom_calls"] = e.scratch.get("urandom_calls", 0) + 1
+        v = e.fresh_int("a_secret" if k == 1 else "a_secret%d" % k, 0, 256 ** n - 1)
         return SymBytes([IntSeg(v, n, "big")])
 
 
@@ -334,6 +333,43 @@ def wrong_code_unit(M):
     return h
 
 
+def two_exchanges_unit(M):
+    """a mistyped setup code followed by the right one against the same accessory salt, in one process: nothing of the first
+    exchange may leak into the second"""
+    def h(ex):
+        sym = not getattr(ex, "concrete", False)
+        seed = ex.fresh_int("seed", 0, 7)
+        clients = []
+        if sym:
+            Bv = ex.fresh_int("B", 0, N - 1)
+            saltv = ex.fresh_int("salt", 0, 256 ** 16 - 1)
+            for code in ("999-99-999", CODE):
+                clients.append(M.srp.SrpClient("Pair-Setup", code))
+            a = clients[1].a
+        else:
+            a, Bv, saltv = case("none", seed)
+            saltv ^= 0x5A5A5A5A  # a salt no other unit uses in this process (process-wide state must come from this unit's first exchange)
+            saved = real_srp.Srp.generate_private_key
+            real_srp.Srp.generate_private_key = staticmethod(lambda: a)
+            try:
+                for code in ("999-99-999", CODE):
+                    clients.append(M.srp.SrpClient("Pair-Setup", code))
+            finally:
+                real_srp.Srp.generate_private_key = saved
+        mk = (lambda r: M.srp.__builtins__["bytearray"](r)) if sym else bytearray
+        ref = reference(sym, a, Bv, saltv, CODE)
+        for i, c in enumerate(clients):
+            c.set_salt(mk(be(saltv, 16)))
+            c.set_server_public_key(be(Bv, 384))
+            k, m1 = c.get_session_key_bytes(), c.get_proof_bytes()
+            if i == 1:
+                ex.require(eq(sym, k, ref["K"]), "second exchange (right code after a mistyped one, same salt): session key is the reference K")
+                ex.require(eq(sym, m1, ref["M1"]), "second exchange (right code after a mistyped one, same salt): proof is the reference M1")
+                ex.require(bool(c.verify_servers_proof_bytes(ref["M2"])) is True, "second exchange: the correct accessory proof is accepted")
+        return ex.observe("ok")
+    return h
+
+
 def protocol_unit(M):
     """byte-level use in pair-setup: M3 carries PAD(A) and M1; M5 is sealed under HKDF(K bytes) with K the 64-byte digest"""
     def h(ex):
@@ -379,6 +415,7 @@ def build(tier, mutate=None):
                                                                                   "minimal byte lengths": "free (every leading-zero situation)",
                                                                                   "concrete side": "directed search (table of 4 mined cases per class), %d leading-zero classes" % len(LZ)},
              regions=["lz-" + x for x in LZ]),
+        Unit("client/two-exchanges-same-salt", two_exchanges_unit(C), two_exchanges_unit(R), bounds={"exchanges": "mistyped code, then the right code; same salt and B"}),
         Unit("client/wrong-code", wrong_code_unit(C), wrong_code_unit(R), bounds={"codes": "111-22-333 vs 999-99-999"}),
         Unit("protocol/byte-level-use", protocol_unit(C), protocol_unit(R), bounds={"leading zero in": ["none", "A", "K", "M1"]},
              regions=["lz-none", "lz-K"]),
